@@ -100,6 +100,8 @@ def _run_one(args):
                     res = r2
                     break
         out.update(res.to_json())
+        if hasattr(mod, "counters"):
+            out["counters"] = mod.counters()
         out["branch_fallbacks"] = dict(E._branch_stats)
         if res.status == "violation" and ob.system_replay is not None:
             try:
@@ -238,7 +240,11 @@ def write_evidence(mod, pid, tier, seed, results, violations, known_hits, errors
             s["notes"] = [str(x)[:300] for x in r.get("notes", [])[:3]]
         samples.append(s)
     vc_sample = next((r.get("sample_vc") for r in results if r.get("sample_vc")), None)
-    nontrivial = sum(1 for r in holds if (r.get("vcs_unsat", 0) or 0) > 0 or r.get("ground"))
+    nontrivial = sum(1 for r in holds if (r.get("vcs_unsat", 0) or 0) > 0 or r.get("ground") or (r.get("paths") or 0) >= 2)
+    counters = {}
+    for r in results:
+        for k, v in (r.get("counters") or {}).items():
+            counters[k] = counters.get(k, 0) + v
     cov = {
         "explanation": getattr(mod, "EXPLANATION", ""),
         "obligations": n,
@@ -250,7 +256,9 @@ def write_evidence(mod, pid, tier, seed, results, violations, known_hits, errors
         "rule": "evaluations = symbolic paths explored (each a distinct branch history of the real code, "
                 "decided for all input values by z3) plus ground cases; distinct_nontrivial = obligations "
                 "whose verdict is 'holds' with at least one non-trivial (solver-discharged, unsat) VC, "
+                "or at least two feasible branch histories enumerated by the solver and all checked, "
                 "or a passing ground check",
+        **counters,
         "paths": paths,
         "vcs": vcs,
         "vcs_unsat": sum(r.get("vcs_unsat", 0) or 0 for r in results),
